@@ -112,16 +112,9 @@ theorem buildBundles_numbers (m : Model) (n : Nat) (bs bs' : List (Bundle Vals))
               cases i with
               | zero =>
                 -- bundleBuild keeps the header
-                unfold bundleBuild at hb2
-                split at hb2
-                · cases hb2
-                · split at hb2
-                  · cases hb2
-                  · split at hb2
-                    · cases hb2
-                    · simp only [Except.ok.injEq] at hb2
-                      subst hb2
-                      exact ⟨_, rfl, by simp⟩
+                have hb := bundleBuild_ok m _ _ hb2
+                subst hb
+                exact ⟨_, rfl, by simp⟩
               | succ k =>
                 simp only [List.getElem_cons_succ]
                 have hk : k < rs.length := by simpa using hi
